@@ -310,6 +310,8 @@ def reify_ann(o, top=True):
             return ['union', 'typing', [reify_ann(x, False) for x in args]]
         if org is typing.Literal:
             return ['lit', [reify_val(x) for x in args]]
+        if isinstance(o, (typing._SpecialGenericAlias, typing._SpecialForm)) and getattr(o, '_name', None) in TNAMES:
+            return ['bare', o._name]
         if org is collections.abc.Callable and type(o).__module__ == 'typing':
             flat = o.__args__
             if len(flat) == 2 and flat[0] is Ellipsis:
